@@ -470,8 +470,6 @@ class ConnectionPool(Entity):
 
     def _handle_warmup(self, event: Event) -> Generator[float, None, list[Event] | None]:
         """Create minimum connections."""
-        events = []
-
         while self._total_connections + self._pending_connections < self._min_connections:
             connection = yield from self._create_connection()
             self._idle_connections.append(connection)
@@ -488,7 +486,9 @@ class ConnectionPool(Entity):
                     },
                 },
             )
-            events.append(timeout_event)
+            # Emit it now: setting up the remaining connections takes
+            # simulated time, after which this check could lie in the past.
+            yield 0.0, [timeout_event]
 
         logger.debug(
             "[%s] Warmup complete: created %d connections",
@@ -496,7 +496,7 @@ class ConnectionPool(Entity):
             self._min_connections,
         )
 
-        return events if events else None
+        return None
 
     def _handle_idle_timeout(self, event: Event) -> list[Event] | None:
         """Handle idle timeout for a connection."""
